@@ -227,9 +227,13 @@ def _par_lines(cmd, cases, timeout, nshards=NCPU):
     return res
 
 
-def run_impl(ctx, cases, timeout=600, quick_watchdog=False):
+def run_impl(ctx, cases, timeout=None, quick_watchdog=False):
     """implementation logs; a crashed/hung shard is re-run so that every case gets its own answer.
     quick_watchdog: 2 s stand for 'never' (only used while minimising an already failing script)"""
+    # a shard of the quick tier answers in seconds: a process that has not answered after 150 s is stuck, and what it left
+    # unanswered is run again in smaller batches (seen once: ten minutes spent waiting for one process on the unchanged tree)
+    if timeout is None:
+        timeout = 150 if getattr(ctx, "tier", "quick") == "quick" else 600
     cmd = [ctx.impl_bin, "rt"]
     if quick_watchdog:
         cmd = ["env", "RT_WATCHDOG_MS=2000", "RT_WATCHDOG_SHORT_MS=1000"] + cmd
